@@ -50,28 +50,28 @@ def signature(s):
 
 
 def known_class(s, r):
-    m = s.meta
+    # the call in which the (first) fault fired decides the class
     fk = None
-    for o in r["obs"]:
+    op = None
+    for i, o in enumerate(r["obs"]):
         mm = re.search(r"ERaw \d+ (\w+) \d+ RFault", o)
         if mm:
             fk = mm.group(1)
+            op = s.hist[i][1] if i < len(s.hist) else None
+            fobs = o
             break
-    if fk is None:
+    if fk is None or op is None or op[0] != "acq":
         return None
     rel = fk in ("OUnlock", "OUnlockSh")
-    # the shape of the root, looking through a Poisonable
-    root_cid = next(op[1] for _, op in s.hist if op[0] == "acq")
-    shape = s.shape(root_cid)
+    # the shape of the acquired root, looking through a Poisonable
+    shape = s.shape(op[1])
     retry = re.match(r"^(SPoison \d+ \()*SRetry", shape) is not None
-    fl = m["flavour"]
+    fl = op[3]
     if retry and fl in ("guard", "scoped"):
         return "d12a_retry_unwind_handler"
     if rel and fl in ("try", "scopedtry"):
         # a refused member before the panicking unlock: the panic struck the rollback
-        for o in r["obs"]:
-            if "RFault" in o:
-                return "d12b_try_rollback" if "(RBool false)" in o.split("RFault")[0] else "d12c_release_loop"
+        return "d12b_try_rollback" if "(RBool false)" in fobs.split("RFault")[0] else "d12c_release_loop"
     if rel and fl == "scoped":
         return "d12c_release_loop"
     return None
